@@ -160,3 +160,12 @@ package otel
 //@   loop 1 invariant [obs] obs != nil && fresh(obs) && obs.tracer != nil && obs.meter != nil
 //@   ensures [C20.otel.new] err == nil ==> result0 != nil && ObsInv(result0)
 //@   ensures [C20.otel.new.err] err != nil ==> result0 == nil
+
+// ---------------------------------------------------------------- option constructors
+// Each returns its option literal (the literal's own contract says what the option does).
+//@ func WithTracerProvider
+//@   props C20
+//@   ensures [opt.value] result != nil
+//@ func WithMeterProvider
+//@   props C20
+//@   ensures [opt.value] result != nil
